@@ -4,22 +4,24 @@ import json, os, re, shutil, subprocess, sys
 VER = os.path.dirname(os.path.dirname(os.path.abspath(__file__)))
 props = {json.loads(l)['id']: json.loads(l) for l in open(os.path.join(VER, 'properties.jsonl'))}
 ROUND2 = '--round2' in sys.argv
-ROUND3 = '--round3' in sys.argv or '--round4' in sys.argv or '--round6' in sys.argv
-ROUND4 = '--round4' in sys.argv or '--round6' in sys.argv
-ROUND6 = '--round6' in sys.argv
+ROUND7 = '--round7' in sys.argv
+ROUND3 = '--round3' in sys.argv or '--round4' in sys.argv or '--round6' in sys.argv or ROUND7
+ROUND4 = '--round4' in sys.argv or '--round6' in sys.argv or ROUND7
+ROUND6 = '--round6' in sys.argv or ROUND7
+RN = '7' if ROUND7 else '6'
 R3 = {'a': 'C20', 'b': 'C11', 'c': 'C18', 'd': 'C02'}
 args = [a for a in sys.argv[1:] if not a.startswith('--')]
 for arg in args:
     pid = R3[arg] if (ROUND3 and not ROUND4) else arg
     for v0 in ('ABCD' if ROUND3 else 'AB'):
         if ROUND4:
-            d = f'/tmp/wt6-{arg}/SEEDED/{v0}' if ROUND6 else f'/tmp/wt4-{arg}/SEEDED/{v0}'
+            d = f'/tmp/wt{RN}-{arg}/SEEDED/{v0}' if ROUND6 else f'/tmp/wt4-{arg}/SEEDED/{v0}'
             try:
                 first = open(os.path.join(d, 'NOTES.md')).readline()
                 pid = re.search(r'C\d\d', first).group(0)
             except Exception:
                 pid = 'C07'
-            v = f'R6{arg}{v0}' if ROUND6 else f'R4{arg}{v0}'
+            v = f'R{RN}{arg}{v0}' if ROUND6 else f'R4{arg}{v0}'
         elif ROUND3:
             d = f'/tmp/wt3-{arg}/SEEDED/{v0}'
             v = {'A': 'E', 'B': 'F', 'C': 'G', 'D': 'H'}[v0]
